@@ -322,20 +322,14 @@ func (m *MemMapFs) Remove(name string) error {
 
 func (m *MemMapFs) RemoveAll(path string) error {
 	path = normalizePath(path)
+	// one critical section: nobody sees a subtree that is half removed
 	m.mu.Lock()
+	defer m.mu.Unlock()
 	m.unRegisterWithParent(path)
-	m.mu.Unlock()
-
-	m.mu.RLock()
-	defer m.mu.RUnlock()
 
 	for p := range m.getData() {
 		if p == path || strings.HasPrefix(p, path+FilePathSeparator) {
-			m.mu.RUnlock()
-			m.mu.Lock()
 			delete(m.getData(), p)
-			m.mu.Unlock()
-			m.mu.RLock()
 		}
 	}
 	return nil
